@@ -21,7 +21,10 @@ RULE = ("sessions on one LZ4F_cctx: 1-3 frames, each with random preferences (bl
         "sizes {0,1,7,8,100,4000,65535,65536,70000,100000} x op script {tmp buffer exactly full, k*blockSize+-1, flushes with 0/1/blockSize-1 buffered, "
         "compressed<->uncompressed switches with data buffered, size-0 updates, flush walk through tmpBuff (64 KB relocation), small steps, random} x source placement "
         "{fresh buffer freed and overwritten after the call, same buffer reused, slices of one buffer with stableSrc 0/1, separate kept buffers with stableSrc=1}, "
-        "calls outside a frame (cStage), one-shot LZ4F_compressFrame(_usingCDict). non-trivial = frame with >= 2 blocks, a dictionary or an uncompressed update; "
+        "calls outside a frame (cStage), one-shot LZ4F_compressFrame(_usingCDict); 'reuse' sessions: ONE cctx over 4 frames walking every ordered pair of "
+        "(fast|HC level) x (no dictionary|compressBegin_usingDict|CDict) x block mode of the second frame (72 transitions per 24 sessions), a quarter of the earlier frames abandoned before "
+        "compressEnd, the CDict released right after its frame in every other session, dictionaries = incompressible part ++ theme, input alternating between this frame's and the PREVIOUS "
+        "frame's theme (so that anything retained from the previous session yields matches the decoder cannot resolve). non-trivial = frame with >= 2 blocks, a dictionary or an uncompressed update; "
         "distinct = distinct (preferences, dictionary kind/size, input size, script, placement)")
 TRUSTED = ["hand-written model Model/FrameC.v of the LZ4F compression API, tied by per-call byte comparison only",
            "abstraction: the model keeps the bytes of tmpIn and of the 64 KB history, not their addresses (tmpIn inside tmpBuff, LZ4F_localSaveDict, stableSrc, relocation): "
@@ -43,6 +46,8 @@ def gen_cases(tier, seed):
     cases += [{"kind": "oneshot", "seed": rng.randrange(1 << 48), "tier": tier, "count": 4 if tier != "thorough" else 2} for _ in range(n_one)]
     cases += [{"kind": "session", "seed": rng.randrange(1 << 48), "tier": tier, "big": True} for _ in range(n_big)]
     cases += [{"kind": "equalsize", "seed": rng.randrange(1 << 48), "tier": tier, "count": 3} for _ in range({"quick": 6, "search": 12, "thorough": 20}[tier])]
+    # one cctx over 4 frames: every ordered pair of (fast|HC level, no dictionary|usingDict|CDict) x block mode of the second frame
+    cases += [{"kind": "reuse", "seed": rng.randrange(1 << 48), "tier": tier, "idx": i} for i in range({"quick": 24, "search": 48, "thorough": 48}[tier])]
     rng.shuffle(cases)
     return [dict(c) for c in framelib.CORPUS] + cases       # regression corpus of repaired defects runs first
 
